@@ -462,6 +462,13 @@ INJECTOR_NAMES_2 = {
 
 # ---- round 10 (hunt on the unchanged tree): reproducers of the repaired defects and of the recorded findings
 ROUND10 = {
+    'PLUS_BUILD_TWO_LINES': '// +build linux darwin\n// +build amd64 arm64\n\npackage main\n\nimport "github.com/mazrean/kessoku"\n\ntype Config struct{}\ntype Server struct{ c *Config }\n\nfunc NewConfig() *Config          { return &Config{} }\nfunc NewServer(c *Config) *Server { return &Server{c} }\n\nvar _ = kessoku.Inject[*Server]("InitServer", kessoku.Provide(NewConfig), kessoku.Provide(NewServer))\n',
+    'TEST_FILE_NAMES_TAGGED_TEST': '//go:build integration\n\npackage main\n\nimport "testing"\n\n// a helper of the integration tests, named like the package the generated file imports\nfunc errgroup(t *testing.T) { t.Helper() }\n\nfunc TestIntegration(t *testing.T) { errgroup(t) }\n',
+    'PLATFORM_SIBLING_WIN': 'package main\n\n// only compiled on windows\nvar serviceName = "svc"\n',
+    'PLATFORM_SIBLING': 'package main\n\nimport "github.com/mazrean/kessoku"\n\ntype A struct{}\n\nfunc NewA() *A { return &A{} }\n\nvar _ = kessoku.Inject[*A]("InitA", kessoku.Provide(NewA))\n\nfunc main() {\n\tif InitA() == nil {\n\t\tpanic("wrong result")\n\t}\n}\n',
+    'DOT_KESSOKU_SET': 'package main\n\nimport . "github.com/mazrean/kessoku"\n\ntype DB struct{ S string }\ntype Cache struct{}\ntype App struct {\n\tD *DB\n\tC *Cache\n}\n\nfunc NewDB() *DB                  { return &DB{"db"} }\nfunc NewCache() *Cache            { return &Cache{} }\nfunc NewApp(d *DB, c *Cache) *App { return &App{d, c} }\n\nvar Base = Set(Provide(NewDB))\n\nvar _ = Inject[*App]("InitApp", Base, Set(Provide(NewCache)), Provide(NewApp))\nvar _ = Inject[*DB]("InitDB", Base)\n\nfunc main() {\n\tif InitApp().D.S != "db" || InitDB().S != "db" {\n\t\tpanic("wrong result")\n\t}\n}\n',
+    'EMBEDDED_SEALED_LIB': 'package lib\n\ntype Sealed interface{ sealed() }\ntype node struct{}\n\nfunc (node) sealed()      {}\nfunc (node) Name() string { return "n" }\n\ntype App struct{ N string }\ntype Cache struct{}\n\nfunc NewNode() interface {\n\tSealed\n\tName() string\n} {\n\treturn node{}\n}\nfunc NewCache() *Cache { return &Cache{} }\nfunc NewApp(n interface {\n\tSealed\n\tName() string\n}, c *Cache) *App {\n\treturn &App{n.Name()}\n}\n',
+    'EMBEDDED_SEALED': 'package main\n\nimport (\n\t"context"\n\n\t"github.com/mazrean/kessoku"\n\t"vscratch/embedded_sealed/lib"\n)\n\nvar _ = kessoku.Inject[*lib.App]("InitApp", kessoku.Async(kessoku.Provide(lib.NewNode)), kessoku.Async(kessoku.Provide(lib.NewCache)), kessoku.Provide(lib.NewApp))\n\nfunc main() { _ = InitApp(context.Background()) }\n',
     'NAME_INIT': 'package main\n\nimport "github.com/mazrean/kessoku"\n\ntype App struct{}\n\nfunc NewApp() *App { return &App{} }\n\nvar _ = kessoku.Inject[*App]("init", kessoku.Provide(NewApp))\n\nfunc main() {}\n',
     'UNEXPORTED_MEMBERS_LIB': 'package lib\n\ntype Opts = struct{ verbose bool }\ntype Sealed = interface{ sealed() }\ntype impl struct{}\n\nfunc (impl) sealed() {}\n\ntype App struct{ V bool }\ntype Cache struct{}\n\nfunc NewOpts() struct{ verbose bool }   { return struct{ verbose bool }{true} }\nfunc NewCache() *Cache                  { return &Cache{} }\nfunc NewApp(o struct{ verbose bool }, c *Cache) *App { return &App{o.verbose} }\nfunc NewSealed() interface{ sealed() }  { return impl{} }\n',
     'UNEXPORTED_MEMBERS': 'package main\n\nimport (\n\t"context"\n\n\t"github.com/mazrean/kessoku"\n\t"vscratch/unexported_members/lib"\n)\n\nvar _ = kessoku.Inject[*lib.App]("InitApp", kessoku.Async(kessoku.Provide(lib.NewOpts)), kessoku.Async(kessoku.Provide(lib.NewCache)), kessoku.Provide(lib.NewApp))\n\nfunc main() { _ = InitApp(context.Background()) }\n',
@@ -723,6 +730,11 @@ def _stage(seed, tier, key="N-x"):
     pkgs.append(("unexported_members_param", {"k.go": R["UNEXPORTED_MEMBERS_PARAM"], "lib/l.go": R["UNEXPORTED_MEMBERS_LIB"].replace("unexported_members", "unexported_members_param")}, ["k.go"], None, dict(kind="the same as an injector parameter", run=True)))
     pkgs.append(("test_file_names", {"k.go": R["TEST_FILE_NAMES"], "k_test.go": R["TEST_FILE_NAMES_TEST"]}, ["k.go"], None, dict(kind="naming: a package-level name declared in the package's own _test.go file", run=True)))
     pkgs.append(("all_files_tagged", {"x.go": R["TAGGED_X"], "y.go": R["TAGGED_Y"]}, ["x.go"], None, dict(kind="every file of the package is under a build tag that is off: the file is loaded on its own", vet_env={"GOFLAGS": "-mod=mod -tags=integration"})))
+    pkgs.append(("plus_build_two_lines", {"app_x.go": R["PLUS_BUILD_TWO_LINES"], "main.go": "package main\n\nfunc main() {}\n"}, ["app_x.go"], None, dict(kind="two // +build lines (and-ed, each an or): the output must be excluded wherever the source is", vet_env={"GOARCH": "386"})))
+    pkgs.append(("test_file_names_tagged", {"k.go": R["TEST_FILE_NAMES"], "k_test.go": R["TEST_FILE_NAMES_TAGGED_TEST"]}, ["k.go"], None, dict(kind="naming: a package-level name declared in a _test.go file that is under a build tag", run=True, vet_tags=["integration"])))
+    pkgs.append(("platform_sibling", {"k.go": R["PLATFORM_SIBLING"], "service_windows.go": R["PLATFORM_SIBLING_WIN"]}, ["k.go"], None, dict(kind="a package with one source on this platform and a sibling for another platform", run=True, expect_accept=True, expect_funcs={"k_band.go": ["InitA"]})))
+    pkgs.append(("dot_kessoku_set", {"k.go": R["DOT_KESSOKU_SET"]}, ["k.go"], None, dict(kind="kessoku dot-imported: a Set variable and an inline Set", run=True, expect_accept=True, expect_funcs={"k_band.go": ["InitApp", "InitDB"]})))
+    pkgs.append(("embedded_sealed", {"k.go": R["EMBEDDED_SEALED"], "lib/l.go": R["EMBEDDED_SEALED_LIB"]}, ["k.go"], None, dict(kind="an unnamed interface that embeds an exported interface with an unexported method of another package", run=True)))
     pkgs.append(("local_set", {"k.go": R["LOCAL_SET"]}, ["k.go"], None, dict(kind="a Set held in a := variable", run=True, value_check=True, expect_params={"k_band.go": {"InitApp": []}})))
     pkgs.append(("shared_set_dot", {"k.go": R["SHARED_SET_DOT"], "lib/l.go": R["SHARED_SET_DOT_LIB"]}, ["k.go"], None, dict(kind="imports: a Set shared by two injectors, one provider dot-imported", run=True)))
     pkgs.append(("name_taken_a", {"k.go": R["NAME_TAKEN_A"]}, ["k.go"], None, dict(kind="an injector named like a function of the package", run=True)))
